@@ -435,6 +435,40 @@ pub fn recorded_names() -> String {
     s
 }
 
+/// Typed additions (one per addition of the history, up to 40 requests) under the type table of a platform
+/// whose machine word has `word` bytes.
+fn typed_layout(h: &History, word: usize) -> Option<Vec<Vec<DatumObs>>> {
+    let table = truc::record::type_resolver::StaticTypeResolver::from(crate::c18::foreign_map(word));
+    let mut b = NativeRecordDefinitionBuilder::new(&table);
+    let r = catch_unwind(AssertUnwindSafe(|| {
+        let mut n = 0usize;
+        for req in h.reqs.iter().take(40) {
+            match req {
+                Req::Add { size, .. } => {
+                    let name = format!("t{}", n);
+                    n += 1;
+                    let _ = match size % 6 {
+                        0 => b.add_datum::<usize, _>(name),
+                        1 => b.add_datum_allow_uninit::<u64, _>(name),
+                        2 => b.add_datum_allow_uninit::<u32, _>(name),
+                        3 => b.add_datum::<String, _>(name),
+                        4 => b.add_datum::<Vec<()>, _>(name),
+                        _ => b.add_datum::<Box<str>, _>(name),
+                    };
+                }
+                Req::Close { strat } => {
+                    close_with(&mut b, *strat);
+                }
+                _ => {}
+            }
+        }
+        close_with(&mut b, h.final_strat);
+    }));
+    r.ok()?;
+    let def = catch_unwind(AssertUnwindSafe(|| b.build())).ok()?;
+    Some(observe_definition(&def))
+}
+
 /// Replays a definition through the conversion helper into a native builder: (target layout, generated code).
 fn via_helper(
     def: &truc::record::definition::RecordDefinition<truc::record::definition::NativeDatumDetails>,
@@ -487,6 +521,7 @@ pub fn digest_of(h: &History, sel: usize) -> Option<String> {
             s.push_str(&format!("{:?}", layout));
             s.push_str(&code);
         }
+        s.push_str(&format!("{:?}", typed_layout(h, 4)));
         s
     }))
     .ok()?;
@@ -569,6 +604,15 @@ pub fn check_c19(h: &History) -> Result<CaseInfo, Failure> {
                 "two replays of the same history under a user-written closing strategy (slot reuse in request order) gave different layouts",
             ));
         }
+    }
+    // Typed additions under a type table: the layout depends on this table only, not on the tables the
+    // process (this thread, this stack address) has used before.
+    let (first, _other, again) = (typed_layout(h, 4), typed_layout(h, 16), typed_layout(h, 4));
+    if first != again {
+        return Err(Failure::new(
+            "offsets-differ",
+            "typed additions under the same type table gave two layouts, before and after another table was used",
+        ));
     }
     // The same definition replayed twice through the conversion helper into a native builder.
     if let (Some(a), Some(b)) = (via_helper(&def, h.final_strat), via_helper(&def, h.final_strat)) {
